@@ -108,6 +108,8 @@ func (b *CombinationColexIterator) Next() bool {
 	}
 
 	if b.data[b.k-1] == b.n-1 {
+		//Exhausted. Make sure the next call comes back to the check on the last element.
+		b.j = b.k
 		return false
 	}
 	b.data[b.k-1]++
